@@ -134,8 +134,8 @@ func (its *PushPullHandler) initialize(retCh chan *model.PushPullPack) errors.Or
 func (its *PushPullHandler) finalize() {
 	if r := recover(); r != nil {
 		its.ctx.L().Errorf("recover panic [%v]: %v", r, string(debug.Stack()))
-
-		return
+		// the caller waits on retCh and the next request on the lock: answer with an error and unlock
+		its.err = errors.PushPullAbortionOfServer.New(its.ctx.L(), fmt.Sprintf("panic: %v", r))
 	}
 	defer its.lock.Unlock()
 	if its.err == nil {
